@@ -576,3 +576,138 @@ func checkBracketCloserAddsNothing(p *Prog, r *Result, rule string) int {
 	})
 	return n
 }
+
+// R18d: "HasMeta reports false" means the pattern matches one string: itself with its escapes removed. Code that finds a
+// pattern to have no metacharacters and goes on to use it as text — as a path element, as a prefix to compare with —
+// therefore removes the escapes first. For every call of pattern.HasMeta outside package pattern: in the code that
+// runs only when the answer was false, the value is handed to functions of package pattern, or to an unescaper (a
+// function of the module that drops the byte after comparing it with a backslash), or it was reassigned from one; any
+// other use of it is a use of the escaped text.
+func checkLiteralPatternsUnescaped(p *Prog, r *Result, rule string) int {
+	n := 0
+	// unescapers: module functions string -> string whose body compares a byte with '\\'
+	unescaper := map[*types.Func]bool{}
+	for _, rel := range []string{"internal", "expand", "interp", "pattern"} {
+		pkg := p.Pkg(rel)
+		if pkg == nil {
+			continue
+		}
+		info := pkg.TypesInfo
+		for _, fd := range p.AllFuncDecls(rel) {
+			if fd.Body == nil {
+				continue
+			}
+			fo, ok := info.Defs[fd.Name].(*types.Func)
+			if !ok {
+				continue
+			}
+			sig := fo.Type().(*types.Signature)
+			if sig.Params().Len() != 1 || sig.Results().Len() != 1 || sig.Params().At(0).Type().String() != "string" || sig.Results().At(0).Type().String() != "string" {
+				continue
+			}
+			found := false
+			ast.Inspect(fd.Body, func(q ast.Node) bool {
+				if be, ok := q.(*ast.BinaryExpr); ok && be.Op == token.EQL {
+					if tv, ok := info.Types[be.Y]; ok && tv.Value != nil && tv.Value.ExactString() == "92" {
+						found = true
+					}
+				}
+				return true
+			})
+			if found {
+				unescaper[fo] = true
+			}
+		}
+	}
+	for _, rel := range []string{"internal", "expand", "interp"} {
+		pkg := p.Pkg(rel)
+		if pkg == nil {
+			continue
+		}
+		info := pkg.TypesInfo
+		for _, fd := range p.AllFuncDecls(rel) {
+			if fd.Body == nil || strings.HasSuffix(p.Position(fd.Pos()), "_test.go") {
+				continue
+			}
+			var g *FGraph
+			k := 0
+			inspectNoLit(fd.Body, func(m ast.Node) bool {
+				c, ok := m.(*ast.CallExpr)
+				if !ok || len(c.Args) < 1 {
+					return true
+				}
+				callee := calleeOf(info, c)
+				if callee == nil || callee.Pkg() == nil || !strings.HasSuffix(callee.Pkg().Path(), "/pattern") || callee.Name() != "HasMeta" {
+					return true
+				}
+				id, ok := ast.Unparen(c.Args[0]).(*ast.Ident)
+				if !ok {
+					return true
+				}
+				obj := info.ObjectOf(id)
+				if g == nil {
+					g = NewFGraph(info, fd.Body, nil)
+				}
+				// blocks reached only past the false answer of this very call
+				falseOnly := func(b *FBlock) bool {
+					return underEdges(g, b, func(e *FEdge) bool { return ast.Unparen(e.Cond) == ast.Expr(c) && !e.Pol })
+				}
+				uses, bad := 0, ""
+				reassigned := token.NoPos
+				for _, b := range g.Blocks {
+					if !falseOnly(b) {
+						continue
+					}
+					for _, nd := range b.Nodes {
+						// reassignment from an unescaper ends the obligation for what follows
+						if as, ok := nd.(*ast.AssignStmt); ok {
+							for i, l := range as.Lhs {
+								if lid, ok := l.(*ast.Ident); ok && info.ObjectOf(lid) == obj && i < len(as.Rhs) {
+									if rc, ok := ast.Unparen(as.Rhs[i]).(*ast.CallExpr); ok {
+										if f2 := calleeOf(info, rc); f2 != nil && unescaper[f2] && (reassigned == token.NoPos || as.Pos() < reassigned) {
+											reassigned = as.Pos()
+										}
+									}
+								}
+							}
+						}
+						ast.Inspect(nd, func(q ast.Node) bool {
+							uc, ok := q.(*ast.CallExpr)
+							if !ok || uc == c {
+								return true
+							}
+							for _, a := range uc.Args {
+								aid, ok := ast.Unparen(a).(*ast.Ident)
+								if !ok || info.ObjectOf(aid) != obj {
+									continue
+								}
+								f2 := calleeOf(info, uc)
+								if f2 != nil && (unescaper[f2] || (f2.Pkg() != nil && strings.HasSuffix(f2.Pkg().Path(), "/pattern"))) {
+									continue
+								}
+								uses++
+								if reassigned != token.NoPos && uc.Pos() > reassigned {
+									continue
+								}
+								if bad == "" {
+									bad = fmt.Sprintf("%s at %s", exprString(uc), p.Position(uc.Pos()))
+								}
+							}
+							return true
+						})
+					}
+				}
+				if uses == 0 {
+					return true // the answer only decides whether to match at all
+				}
+				k++
+				n++
+				key := fmt.Sprintf("%s#%s, found to have no metacharacters, is used as text with its escapes removed", funcKey(rel, fd), id.Name)
+				r.Check(bad == "", rule, key, c.Pos(), "reassigned from an unescaping function before its first use as text",
+					fmt.Sprintf("%s is found to have no metacharacters and then used as plain text with its backslashes in place (%s): what such a pattern matches is itself with the escapes removed — the directory `a*b` for the element `a\\*b` that \"a*b\"/* is turned into — so the text compared or joined is another string", id.Name, bad))
+				return true
+			})
+		}
+	}
+	return n
+}
